@@ -29,7 +29,8 @@ else
 fi
 mkdir -p "$VERIF/evidence" "$VERIF/replays/$ID"
 OUTARG=(); [ -n "$VERIF_OUT" ] && { mkdir -p "$VERIF_OUT"; OUTARG=(-out "$VERIF_OUT"); }
-"$WORK/vchk" -prop "$ID" -tier "$TIER" -seed "${VERIF_SEED:-0}" -verif "$VERIF" -repo "$REPO" "${OUTARG[@]}" "$@"
+# glog output of the library under test (e.g. leafref validation with Log:true) goes to the work directory, which is removed on exit
+"$WORK/vchk" -log_dir "$WORK" -prop "$ID" -tier "$TIER" -seed "${VERIF_SEED:-0}" -verif "$VERIF" -repo "$REPO" "${OUTARG[@]}" "$@"
 rc=$?
 if [ -n "$RACE_FAILED" ]; then
   mkdir -p "${VERIF_OUT:-$VERIF}/replays/C21"
